@@ -3,6 +3,7 @@ import Firefly.Spec.Term
 import Firefly.Proof.Vt
 import Firefly.Props.C17
 import Firefly.Props.C19
+import Firefly.Proof.VtPix
 import Firefly.Gen.C18
 /-!
 # C18 — An active terminal and its console always show the same thing
@@ -185,17 +186,27 @@ theorem shipped_consoles_text (c : VgaText.Cons) (fb0 : Array UInt16) (ok : Fire
   have := sh1.2.2 r col (by rw [sh1.2.1]; exact hr) (by rw [sh1.1]; exact hc)
   rw [this, Console.at, e]
 
-/-- **shipped_consoles_pix_partial** — the same with the model of the shipped framebuffer console
+/-- the call log of a history has the terminal's shape: single in-grid `Write`s, every `Scroll`
+followed at once by the `Fill` of the vacated line -/
+private theorem history_paired {w h sb : Nat} (tab : Nat) (fg bg : UInt8) (hd : Dom w h sb) (ops : List Op)
+    {K0 : Console} (hk : Screen K0 w h) {t : VT} (ht : history w h sb tab fg bg ops = .ok t) :
+    Paired w h t.out := by
+  obtain ⟨s, _, hw, hh, _, _⟩ := history_sync tab fg bg hd ops hk ht
+  rw [← hw, ← hh]; exact s.paired
+
+/-- **shipped_consoles_pix** — the same with the model of the shipped framebuffer console
 (`Model/VesaFb.lean`) for every supported depth, pitch, font (`FontOk`, blank space glyph — a
-generated fact for the shipped fonts) and logo offset: the framebuffer displays the abstract
-console, and while Active every cell of the framebuffer shows the glyph of the corresponding
-viewport cell of the reference terminal in its packed colours.
-Partial: requires `hfit` — the text area is a whole number of glyph rows — because C19's
-`pix_refines_grid` claims the scrolled screen only then; geometries with left-over pixel rows
-below the last text line are covered by the differential run (`extraH > 0` cases) only. -/
-theorem shipped_consoles_pix_partial (c : VesaFb.Cons) (f : VesaFb.Font) (fb0 : Array UInt8)
+generated fact for the shipped fonts), logo offset and **every height** (left-over pixel rows below
+the last text line included): the console model executes the terminal's call log without
+panicking, the framebuffer displays the abstract console, and while Active every cell of the
+framebuffer shows the glyph of the corresponding viewport cell of the reference terminal in its
+packed colours.  On geometries with left-over pixel rows C19 specifies a `Scroll` only for the
+lines that receive another line's contents (`pix_refines_grid_scroll_moved`); the terminal's log
+always has the `Fill` of the vacated line right after the `Scroll` (`VtProof.Paired`, an invariant
+of every history), and the pair re-establishes the display relation (`VtPix.scroll_fill`). -/
+theorem shipped_consoles_pix (c : VesaFb.Cons) (f : VesaFb.Font) (fb0 : Array UInt8)
     (ok : Firefly.C19.PixOk c f fb0) (fok : Firefly.C19.FontOk f) (hsp : SpaceBlank f)
-    (hfit : c.offsetY + c.rows * f.gh = c.height) {sb : Nat} (tab : Nat) (fg bg : UInt8)
+    {sb : Nat} (tab : Nat) (fg bg : UInt8)
     (hd : Dom c.cols c.rows sb) (ops : List Op)
     (K0 : Console) (wf : WF K0) (sh0 : PixShows c f (Firefly.C19.view8 fb0) K0)
     {t : VT} (ht : history c.cols c.rows sb tab fg bg ops = .ok t) :
@@ -205,15 +216,25 @@ theorem shipped_consoles_pix_partial (c : VesaFb.Cons) (f : VesaFb.Font) (fb0 : 
         CellShows c f (Firefly.C19.view8 fb) (col + 1) (r + 1)
           ((((Term.new c.cols c.rows sb tab fg bg).run ops).viewport.getD r []).getD col default)) := by
   have hk : Screen K0 c.cols c.rows := ⟨sh0.1, sh0.2.1, wf⟩
-  have hcalls := history_calls tab fg bg hd ops hk ht
-  obtain ⟨fb, r1, ok1, sh1, _, _⟩ := Firefly.C19.pix_refines_grid_log c f fok hsp hfit t.out fb0 K0 ok wf sh0
-    (fun call hc => (hcalls call hc).1)
+  have hp := history_paired tab fg bg hd ops hk ht
+  obtain ⟨fb, r1, ok1, sh1, _⟩ := Firefly.VtPix.paired_log c f fok hsp hp fb0 K0 ok wf sh0
   refine ⟨fb, r1, ok1, sh1, ?_⟩
   intro ha r col hr hc
   have e := (active_sync tab fg bg hd ops hk ht ha).2
   have := sh1.2.2 r col (by rw [sh1.2.1]; exact hr) (by rw [sh1.1]; exact hc)
   rw [Console.at, e] at this
   exact this
+
+/-- non-vacuity of `shipped_consoles_pix` on a geometry with left-over pixel rows AND columns:
+a 19×37 8-bpp framebuffer with an 8×16 font (2 columns, 2 lines, 3 left-over columns, 5 left-over
+rows) is in C19's domain -/
+example : Firefly.C19.PixOk { bpp := 8, bytesPerPixel := 1, width := 19, height := 37, pitch := 20, font := some { gw := 8, gh := 16, bpr := 1, data := #[] }, cols := 2, rows := 2, palette := Array.replicate 256 (0, 0, 0) }
+    { gw := 8, gh := 16, bpr := 1, data := #[] } (Array.replicate (37 * 20) 0) := by
+  constructor
+  case size => simp
+  case pal => simp
+  case bytes => decide
+  all_goals first | simp | decide
 
 /-- non-vacuity of `shipped_consoles_text`: a blank 3×2 text screen (scrollback 2, the shipped
 default colours 7 on 0) satisfies every hypothesis, so the theorem applies to each of its histories -/
